@@ -558,6 +558,75 @@ def ob_v3_request(cx, what):
         cx.cover("stream_fails")
 
 
+class _AnyHandler:
+    """A message handler that accepts every part (the decoder's framing alone is under test)."""
+    def __init__(self):
+        self.got = []
+
+    def headers_received(self, headers):
+        self.got.append(("headers", headers))
+
+    def byte_part_received(self, byte):
+        self.got.append(("o", byte))
+
+    def bytes_part_received(self, data):
+        self.got.append(("b", data))
+
+    def structure_part_received(self, structure):
+        self.got.append(("s", structure))
+
+    def end_received(self):
+        self.got.append(("end",))
+
+    def protocol_error(self, exception):
+        self.got.append(("protocol_error",))
+        raise exception
+
+
+def ob_v3_grammar(cx, what):
+    """Any message the v3 grammar allows (doc/developers/network-protocol.txt: headers, then any sequence of one-byte,
+    bytes and structure parts, then 'e') - not only the shapes breezy's own encoders emit - through the bare decoder:
+    parts are delivered unchanged, and the decoder never asks for more bytes than the message still has."""
+    P = cx.mod(PROTO)
+    import struct
+    nparts = cx.choose("nparts", 0, cx.p("nparts"))
+    enc = struct.pack("!L", 2) + b"de"
+    want = []
+    for i in range(nparts):
+        kind = cx.pick("part%d" % i, ["o", "b", "s"])
+        if kind == "o":
+            byte = cx.bytes("byte%d" % i, 1)
+            enc = enc + b"o" + byte
+            want.append(("o", byte))
+        elif kind == "b":
+            data = cx.bytes("data%d" % i, cx.choose("ldata%d" % i, 0, cx.p("lchunk")))
+            enc = enc + b"b" + struct.pack("!L", len(data)) + data
+            want.append(("b", data))
+        else:
+            enc = enc + b"s" + struct.pack("!L", 5) + b"l1:ae"
+            want.append(("s", (b"a",)))
+    enc = enc + b"e"
+    tail = cx.bytes("tail", cx.choose("nt", 0, cx.p("ntail")))
+    msg_len = len(enc)
+    h = _AnyHandler()
+    dec = P.ProtocolThreeDecoder(h, expect_version_marker=False)
+    feed(cx, what, enc + tail, msg_len, cx.p("ncuts"), dec.accept_bytes, dec.next_read_size,
+         lambda: dec.state_accept == dec._state_accept_reading_unused, 0)
+    if what == "content":
+        parts = [g for g in h.got if g[0] in ("o", "b", "s")]
+        cx.require(len(parts) == len(want), "decoder delivered %d parts, the message has %d" % (len(parts), len(want)))
+        for g, w in zip(parts, want):
+            cx.require(g[0] == w[0] and (tuple(g[1]) == tuple(w[1]) if w[0] == "s" else g[1] == w[1]), "message part changed")
+        cx.require(h.got and h.got[0][0] == "headers" and h.got[-1] == ("end",), "headers / end of message not reported")
+        cx.require(dec.unused_data == tail, "bytes after the message not preserved")
+    cx.observe("got", [g[0] for g in h.got])
+    cx.observe("unused", dec.unused_data)
+    if want and want[-1][0] == "o":
+        cx.cover("ends_with_byte_part")
+    if nparts == cx.p("nparts"):
+        cx.cover("full")
+
+
 def ob_v3_response(cx, what):
     """v3 responder -> v3 decoder + ConventionalResponseHandler._read_more over a short-reading medium."""
     P = cx.mod(PROTO)
